@@ -41,8 +41,12 @@ TR = 'chainables.transform'
 
 
 def run(ctx: Ctx):
-  for r in (r1, r2, r3, r4, r5, r6):
+  for r in (r1, r2, r3, r4, r5, r6, r9):
     ctx.guard(r)
+  from mlmverif.props import c09
+  ctx.include('R-C12-10', 'error skipping configured on a data source survives a'
+              ' state round trip (make(shard=...), restore): the rebuilt root'
+              ' carries ignore_error (R-C09-2)', c09.r2, min_instances=3)
   from mlmverif.props import c05
   from mlmverif.props._queue import model as qmodel
   ctx.include('R-C12-7', '"the first error reaches the caller, iteration stops'
@@ -141,6 +145,44 @@ def r1(ctx: Ctx):
              'the data source ignores (or always applies) its ignore_error flag',
              node=si.node)
   ctx.floor(rule, 6, n + 3)
+
+
+def r9(ctx: Ctx):
+  rule = 'R-C12-9'
+  ctx.rule(rule, '"the first error reaches the caller with the original'
+           ' exception as cause": `raise X from None` is only applied to a'
+           ' freshly constructed exception — applied to a STORED exception'
+           ' object (a field, a local, `a or b`) it overwrites that object\'s'
+           ' __cause__ with None, i.e. erases the user\'s original error')
+  n = 0
+  mods = [m for name, m in sorted(ctx.repo.modules.items())
+          if '._src.utils.' in name or '._src.chainables.' in name]
+  for mi in mods:
+    fns = list(mi.functions.values()) + [m for c in mi.classes.values() for m in c.methods.values()]
+    for fi in fns:
+      for x in ast.walk(fi.node):
+        if not (isinstance(x, ast.Raise) and x.exc is not None and x.cause is not None):
+          continue
+        if not (isinstance(x.cause, ast.Constant) and x.cause.value is None):
+          continue
+        n += 1
+        fresh = isinstance(x.exc, ast.Call) and not (
+            isinstance(x.exc.func, ast.Attribute) and x.exc.func.attr in ('with_traceback',))
+        if fresh:
+          ctx.ok(rule, fi, f'{fi.qualname}: `{unparse(x)[:60]}` raises a new exception', x)
+        else:
+          ctx.fail(rule, fi, f'{fi.qualname}: raise <stored exception> from None',
+                   f'`{unparse(x)[:70]}` re-raises an existing exception object'
+                   ' with `from None`: its __cause__ (the original exception of'
+                   ' the failing operator) is reset to None before it reaches the'
+                   ' caller', node=x)
+  # positive control for the zero-expected shape
+  probe = ast.parse('raise (self.exception or StopIteration()) from None').body[0]
+  if isinstance(probe.exc, ast.Call):
+    raise AnalysisError(f'{rule}: positive control not recognised')
+  ctx.ok(rule, None, 'positive control `raise (stored or new) from None` recognised',
+         where='mlmverif/props/c12.py')
+  ctx.floor(rule, 1, n + 1)
 
 
 # -- return-kind inference ----------------------------------------------------
@@ -472,6 +514,13 @@ from mlmverif.selfcheck import B, OK  # noqa: E402
 _F = 'chainables/tree_fns.py'
 _U = 'utils/iter_utils.py'
 VARIANTS = [
+    B('queue-reraises-stored-error-from-none', 'utils/iter_utils.py',
+      '          raise self.exception or StopIteration(*self.returned)\n        if self.enqueue_done:',
+      '          raise (self.exception or StopIteration(*self.returned)) from None\n        if self.enqueue_done:',
+      'R-C12-9'),
+    B('restored-source-loses-ignore-error', 'chainables/io.py',
+      '      result = SequenceDataSource(self.data, ignore_error=self.ignore_error)',
+      '      result = self.__class__(self.data)', 'R-C12-10'),
     B('revert-filter-flag', _F,
       '    it_ = iter_utils.processed_with_inputs(\n        self._iterate, iter(input_iterator), ignore_error=self.ignore_error\n    )\n    return (elem for (value,), elem in it_ if value)',
       '    it_ = iter_utils.processed_with_inputs(self._iterate, iter(input_iterator))\n    return (elem for (value,), elem in it_ if value)',
